@@ -837,3 +837,32 @@ def _strip_bounds_v(n):
 def r9(rr, repo):
     from .c10 import r13 as c10r13
     c10r13(rr, repo)
+
+
+@rule('C17.R10', "the size option a source carries itself ('file://v.mp4!maxsize=160x100') is the one its reader applies: VideoIn.setup merges the filter-wide options and the source's own so that the source's own come "
+                 "LAST (later entries of a dict display win) - the other way round a filter-wide maxsize / resize silently replaces the bound the user wrote on the source, and the frames come out larger than "
+                 "that bound allows")
+def r10(rr, repo):
+    VIN = 'openfilter/filter_runtime/filters/video_in.py'
+    mod, setup = repo.find(f'{VIN}::VideoIn.setup')
+    calls = [c for c in q.calls_in(setup) if U(c.func).endswith('MultiVideoReader')]
+    rr.floor('constructions of the multi reader in VideoIn.setup', len(calls), 1, mod, setup)
+    for c in calls:
+        comps = [a for a in c.args if isinstance(a, ast.ListComp)] + [k.value for k in c.keywords if isinstance(k.value, ast.ListComp)]
+        merges = [(lc, lc.elt) for lc in comps if isinstance(lc.elt, ast.Dict) and lc.elt.keys and all(k is None for k in lc.elt.keys) and len(lc.generators) == 1]
+        if not merges:
+            rr.unresolved('how the per-source options are merged with the filter-wide ones was not recognised', mod, c, witness=U(c)[:120], key='per-source-options-win')
+            continue
+        for lc, d in merges:
+            var = U(lc.generators[0].target)
+            order = [U(v) for v in d.values]
+            own = [i for i, v in enumerate(order) if v == var]
+            if len(own) != 1 or len(order) < 2:
+                rr.unresolved('the merge of the options does not have the form {**filter_wide, **own}', mod, d, witness=U(d)[:100], key='per-source-options-win')
+                continue
+            rr.ob("the source's own options are the last entry of the merge (they win over the filter-wide ones)", own[0] == len(order) - 1, mod, d, witness=f'{U(d)} for {var} in {U(lc.generators[0].iter)}',
+                  key='per-source-options-win')
+            # the iterated list holds what the sources carry (source.options), one entry per source
+            it = U(lc.generators[0].iter)
+            fed = [a for a in q.calls_in(setup) if U(a.func) == f'{it}.append' and a.args and 'options' in U(a.args[0])]
+            rr.ob("the merged entries are the options each source carries itself", bool(fed), mod, lc, witness=U(fed[0])[:80] if fed else f'nothing appends source options to {it}', key='per-source-options-fed')
